@@ -105,7 +105,7 @@ ADDED = {
     "C16": " Histories include an 'old head' (first packets 25-47 h older than the rest, honoured in full on the port stack) and fault-log reads by other requesters.",
     "C18": " Family 'sequence' on a clean link: write, edit at the controller (whole schedule or one late setpoint), learn of it (fetch / overheard set), write again (the held, an earlier or a new schedule): every write must put exactly its schedule into the controller by its own frames, every fetch must return what the controller holds.",
     "C19": " After each real get_faultlog() the saved-state lines of fault-log packets must be the packets the gateway holds.",
-    "C20": " Flows include a heating pairing with the 10E0 addenda (OEM code 00).",
+    "C20": " Flows include a heating pairing with the 10E0 addenda (OEM code 00); the fault alphabet has 'at_deadline' arrivals (a frame reaches the waiting end in the loop iteration in which its wait runs out; loop iterations are given half a millisecond of virtual time for that).",
 }
 NOTE_FIX = {
     "C01": "MQTT envelopes are well-formed; serial/MQTT OS layers are replaced by doubles at the pyserial/paho boundary; in part (e) only exceptions raised inside ramses_tx count as the receive path (what a device does with a delivered message is C13's subject).",
